@@ -89,26 +89,32 @@ inductive CodeRes
   | status (s : Status)     -- look-up failed
   deriving Repr, DecidableEq
 
+/-- the first segment (0-based) of the cycle that contains `newTime`: the loop body of `calcStatusCode` up to
+`firstNr` -/
+def cycleFirst (a : Asset) (cfg : Cfg) (mrep : Rep) (cycle T newTime : Nat) : Nat :=
+  let nrWraps := newTime / (cycle * T)
+  let wrapStartS := nrWraps * cycle
+  let firstNr0 : Int := if nrWraps > 0 then findLastSegNr a cfg ((wrapStartS + cfg.startS) * 1000) mrep + 1 else 0
+  let f0 := firstNr0.toNat          -- (`fix:` commit) clamped at 0 when no segment has ended at the cycle start
+  if findSegStartTime a mrep f0 < wrapStartS * T then f0 + 1 else f0
+
+/-- the pattern loop of `calcStatusCode` -/
+def codeGo (a : Asset) (r : Rep) (cfg : Cfg) (m : Meta) (mrep : Rep) : List Pat → CodeRes
+  | [] => .normal
+  | p :: rest =>
+    if !repInReps r.id p then codeGo a r cfg m mrep rest else
+    if p.cycle * m.T = 0 then .status .panic else
+    let firstNr := cycleFirst a cfg mrep p.cycle m.T m.newTime
+    -- newNr is the 32-bit request number; the index is relative to the configured startNumber
+    if m.newNr < cfg.startNr + firstNr then .status .internal else
+    if m.newNr - cfg.startNr - firstNr = p.rsq then .code p.code else codeGo a r cfg m mrep rest
+
 /-- `calcStatusCode` (with the `fix:` commits) -/
 def calcStatusCode (a : Asset) (r : Rep) (cfg : Cfg) (segId nowMS : Nat) (pats : List Pat) : CodeRes :=
   match findSegMeta a r cfg segId nowMS with
   | (.status s, _) => .status s
   | (.found _, none) => .status .panic
   | (.found m, some mrep) =>
-    if mrep.N = 0 then .status .panic else
-    let rec go : List Pat → CodeRes
-      | [] => .normal
-      | p :: rest =>
-        if !repInReps r.id p then go rest else
-        if p.cycle * m.T = 0 then .status .panic else
-        let nrWraps := m.newTime / (p.cycle * m.T)
-        let wrapStartS := nrWraps * p.cycle
-        let firstNr0 : Int := if nrWraps > 0 then findLastSegNr a cfg ((wrapStartS + cfg.startS) * 1000) mrep + 1 else 0
-        let f0 := firstNr0.toNat          -- (`fix:` commit) clamped at 0 when no segment has ended at the cycle start
-        let firstNr := if findSegStartTime a mrep f0 < wrapStartS * m.T then f0 + 1 else f0
-        -- newNr is the 32-bit request number; the index is relative to the configured startNumber
-        if m.newNr < cfg.startNr + firstNr then .status .internal else
-        if m.newNr - cfg.startNr - firstNr = p.rsq then .code p.code else go rest
-    go pats
+    if mrep.N = 0 then .status .panic else codeGo a r cfg m mrep pats
 
 end Core
